@@ -445,8 +445,10 @@ def decoder_tokens(ctx, body, fam, depth=0, subst=None):
             elif depth < 4:
                 for (d2, w2, _) in decoder_tokens(ctx, tgt, fam, depth + 1):
                     toks.append((d + d2, w2, bb))
-        elif (site.path or "").endswith("to_vec") and tgt is None:
-            # the variable-length part: slice copied out
+        elif tgt is None and (site.path or "").split("::")[-1] in ("split_at_checked", "split_at", "split_at_unchecked") \
+                and len(t["args"]) == 2 and "const" not in t["args"][1] and _const_value(body, t["args"][1]) is None:
+            # the variable-length part: a cut of the input at a length that is not a constant here (a fixed-width
+            # reader is accounted for by its return type and never descended into)
             toks.append((d, "B", bb))
         elif tgt is None and depth < 4:
             # `(0..n).map(|_| read_x(..)).collect()`: the closure of an iterator adaptor is a loop body
@@ -472,6 +474,17 @@ def encoder_tokens(ctx, body, depth=0):
         site = Site(body, bb, t)
         p = site.path or ""
         d = sum(1 for h, blks in lps.items() if bb in blks)
+        if p in ("std::vec::Vec::extend_from_slice", "std::iter::Extend::extend", "std::vec::Vec::append") and \
+                len(t["args"]) >= 2 and depth < 4:
+            # `out.extend(encode_list(keys))`: the bytes of a crate-local encoder, appended whole - its tokens, in place
+            sub = [l for l in sl.leaves_of_operand(t["args"][1]) if l[0] == "call"]
+            st = [prog.local_target(Site(body, l[2], body.blocks[l[2]]["term"])) for l in sub
+                  if not isinstance(l[2], tuple)]
+            st = [x for x in st if x is not None and "std::vec::Vec<u8>" in prog.ty_str(x.locals[0])]
+            if len(sub) == 1 and len(st) == 1:
+                for (d2, w2, _) in encoder_tokens(ctx, st[0], depth + 1):
+                    toks.append((d + d2, w2, bb))
+                continue
         if p == "std::vec::Vec::extend_from_slice":
             src = t["args"][1]
             pl = place_of(src)
@@ -501,6 +514,15 @@ def encoder_tokens(ctx, body, depth=0):
         elif p == "std::vec::Vec::push":
             c = t["args"][1].get("const")
             toks.append((d, "1", bb))
+        else:
+            # a crate-local write helper that is handed the output buffer (`write_bytes_with_len(out, key)`): its
+            # tokens, in place
+            tgt = prog.local_target(site)
+            if tgt is not None and depth < 4 and not tgt.is_closure and any(
+                    prog.ty_str(tgt.locals[i]).replace(" ", "") in ("&mutstd::vec::Vec<u8>",)
+                    for i in range(1, tgt.argc + 1)):
+                for (d2, w2, _) in encoder_tokens(ctx, tgt, depth + 1):
+                    toks.append((d + d2, w2, bb))
     return toks
 
 
@@ -729,9 +751,22 @@ def _encoders(ctx):
         rs = prog.ty_str(b.locals[0])
         if not ("std::vec::Vec<u8>" in rs):
             continue
-        if any((s.path or "") == "std::vec::Vec::extend_from_slice" for s in b.calls()):
+        if any((s.path or "") == "std::vec::Vec::extend_from_slice" for s in b.calls()) or encoder_tokens(ctx, b):
+            # (appends itself, or hands its buffer to a private `write_x(&mut out, ..)` helper that does)
             out.append(b)
     return out
+
+
+def enc_view(ctx, e):
+    """The encoder as judged: itself, or - when it hands its buffer to private `write_x(&mut out, ..)` helpers that do the
+    appending - its flat view with those helpers inlined (the tag pushes and the arms they open sit in the helper)."""
+    prog = ctx.prog
+    for s in e.calls():
+        tgt = prog.local_target(s)
+        if tgt is not None and not tgt.is_closure and any(
+                prog.ty_str(tgt.locals[i]).replace(" ", "") == "&mutstd::vec::Vec<u8>" for i in range(1, tgt.argc + 1)):
+            return ctx.flat(e)
+    return e
 
 
 def layout_pairs(ctx, r, fam):
@@ -752,7 +787,8 @@ def layout_pairs(ctx, r, fam):
                 pairs.append((e, d))
     r.check(len(pairs) >= 2, "pairs", None, "codec pairs: %s" % ", ".join("%s/%s" % (e.path.split("::")[-1], d.path.split("::")[-1]) for e, d in pairs),
             "expected at least 2 encoder/decoder pairs, found %d" % len(pairs))
-    for (e, d) in pairs:
+    for (e0, d) in pairs:
+        e = enc_view(ctx, e0)
         et = encoder_tokens(ctx, e)
         dt = decoder_tokens(ctx, d, fam)
         # arms: split by tag
@@ -844,7 +880,7 @@ def split_arms(ctx, body, toks, encoder):
 
 def tag_agreement(ctx, r, fam):
     prog = ctx.prog
-    encs = _encoders(ctx)
+    encs = [enc_view(ctx, e0) for e0 in _encoders(ctx)]
     for e in encs:
         # variant matched -> tag pushed
         enc_map = {}
@@ -906,6 +942,19 @@ def tag_agreement(ctx, r, fam):
                         "an unknown tag does not lead to an error in %s" % dcd.path)
 
 
+def _keybytes_marks_of(prog, b):
+    ms = set()
+    for s_ in b.calls():
+        last = (s_.path or "").split("::")[-1]
+        if last in ("to_le_bytes", "from_le_bytes"):
+            ms.add("le")
+        elif last in ("to_be_bytes", "from_be_bytes"):
+            ms.add("be")
+        elif last in ("to_ne_bytes", "from_ne_bytes"):
+            ms.add("ne")
+    return ms
+
+
 def key_bytes_pairing(ctx, r):
     prog = ctx.prog
     impls = {}
@@ -942,6 +991,23 @@ def key_bytes_pairing(ctx, r):
                 elif last in ("reverse", "rev", "swap_bytes", "rotate_left", "rotate_right"):
                     ms.add("permute:" + last)
             marks[name] = ms
+        # a method that delegates to a sibling (or to the same trait's impl for another type: the integer impls decode
+        # through `<[u8; N]>::from_key_bytes`) has the sibling's representation
+        delegates = {}
+        for name, b in meths.items():
+            for s_ in b.calls():
+                tg = prog.local_target(s_)
+                if tg is not None and tg.raw.get("impl_trait", "").endswith("KeyBytes") and tg.path != b.path:
+                    delegates.setdefault(name, []).append(tg)
+        for _ in range(3):
+            for name, tgs in delegates.items():
+                for tg in tgs:
+                    other = impls.get(tg.raw.get("impl_self"), {})
+                    nm2 = tg.path.split("::")[-1]
+                    src = marks.get(nm2) if tg.raw.get("impl_self") == self_ty else None
+                    if src is None:
+                        src = _keybytes_marks_of(prog, tg)
+                    marks[name] = marks[name] | src
         allm = set().union(*marks.values()) if marks else set()
         order = allm & {"le", "be", "ne"}
         bad = len(order) > 1 or any(m.startswith("permute") or m == "utf8-lossy" for m in allm)
